@@ -763,3 +763,55 @@ func TestReplay(t *testing.T) {
 		R.Violation(v.Key, v.Detail)
 	}
 }
+
+// The REST path with every combination of the importer parameters: the
+// client writes them into the query string, the server reads them back, the
+// adder imports; the root must be what the standard importer computes for
+// the parameters as REQUESTED (cid-version x raw-leaves x layout x wrap, both
+// explicit values of every flag, so that a flag equal to its Go zero value
+// still has to travel).
+func TestRestPathParameterCombinations(t *testing.T) {
+	if replayMode() {
+		t.Skip()
+	}
+	sec := R.Sec("rest-path-parameter-combinations")
+	w, err := newWorld()
+	if err != nil {
+		t.Fatal(err)
+	}
+	defer w.close()
+	ch := chunkers[0]
+	trs := treesFor(ch)
+	if len(trs) > 3 && !ev.Thorough() {
+		trs = trs[:3]
+	}
+	n := 0
+	for _, tr := range trs {
+		for _, cv := range []int{0, 1} {
+			for _, raw := range []bool{false, true} {
+				for _, trickle := range []bool{false, true} {
+					for _, wrap := range []bool{false, true} {
+						if tr.WrapOnly && !wrap {
+							continue
+						}
+						core := coreParams{Chunker: ch.Spec, CidV: cv, RawLeaves: raw, Trickle: trickle, Hash: "sha2-256", Wrap: wrap}
+						refRoot, _, spine, refErr := refImport(tr.Top, core)
+						for _, v := range []variant{{RplMin: 1, RplMax: 2}, {Shard: "huge", RplMin: 1, RplMax: 2}} {
+							params := w.buildParams(core, v, 1<<40)
+							res := w.add(toFilesTop(tr.Top), params, v, nil, true)
+							ci := &caseInfo{Tree: tr, Core: core, V: v, ShardSize: 1 << 40, RefRoot: refRoot, RefErr: refErr, Spine: spine, Via: "query-string->multipart"}
+							vs, outcome := w.check(ci, res)
+							R.Eval(sec, sig(ci, outcome, len(res.rec.sizes)), true)
+							R.Outcome(sec, v.mode()+":"+outcome)
+							for _, x := range vs {
+								R.Violation(x.Key, x.Detail)
+							}
+							n++
+						}
+					}
+				}
+			}
+		}
+	}
+	sec.Bounds["adds"] = fmt.Sprintf("%d: %d trees x cid-version {0,1} x raw-leaves {F,T} x layout {balanced,trickle} x wrap {F,T} x {single, sharded}, parameters through ToQueryString/AddParamsFromQuery, tree through multipart", n, len(trs))
+}
